@@ -1,6 +1,7 @@
 package rules
 
 import (
+	"go/types"
 	"fmt"
 	"go/token"
 	"strings"
@@ -66,6 +67,11 @@ func c06Bus(c *Ctx) {
 	if !c.Anchor(send != nil && sub != nil, "bus-fanout", "(*eventbus.EventBus).Send/Subscribe") {
 		return
 	}
+	// the subscriber list: the bus's only field that is a slice of channels
+	subsField := fieldByType(p.Type("pushers/eventbus", "EventBus"), func(t types.Type) bool { return isSliceOfNamed(t, "Channel") })
+	if !c.Anchor(subsField != "", "bus-fanout", "EventBus's slice-of-Channel field") {
+		return
+	}
 	n := 0
 	for _, call := range Calls(send) {
 		cc := call.Common()
@@ -74,7 +80,7 @@ func c06Bus(c *Ctx) {
 		}
 		n++
 		key := fmt.Sprintf("EventBus.Send delivery[%d]", n)
-		elemOK := rangeElemOfField(cc.Value, "subscribers")
+		elemOK := rangeElemOfField(cc.Value, subsField)
 		c.Check(elemOK, "bus-fanout", key+" receiver", p.InstrPos(call), "each element of eb.subscribers in ascending order", "delivery target is not the range element of eb.subscribers in ascending order: "+Render(cc.Value))
 		c.Check(len(cc.Args) == 1 && cc.Args[0] == ssa.Value(send.Params[1]), "bus-fanout", key+" event", p.InstrPos(call), "the event passed to the bus", "subscribers are not sent the event that was put on the bus")
 		only, extra := loopOnlyConds(call)
@@ -108,10 +114,10 @@ func c06Bus(c *Ctx) {
 			if !ok {
 				continue
 			}
-			if fa, ok := st.Addr.(*ssa.FieldAddr); ok && fieldNameOf(fa) == "subscribers" {
+			if fa, ok := st.Addr.(*ssa.FieldAddr); ok && fieldNameOf(fa) == subsField {
 				if call, ok := st.Val.(*ssa.Call); ok {
 					if bi, ok := call.Call.Value.(*ssa.Builtin); ok && bi.Name() == "append" {
-						if _, ok := isFieldLoadNamed(call.Call.Args[0], "subscribers"); ok && appendedElem(call.Call.Args[1]) == ssa.Value(sub.Params[1]) {
+						if _, ok := isFieldLoadNamed(call.Call.Args[0], subsField); ok && appendedElem(call.Call.Args[1]) == ssa.Value(sub.Params[1]) {
 							okSub = b == sub.Blocks[0]
 						}
 					}
@@ -125,7 +131,7 @@ func c06Bus(c *Ctx) {
 		for _, b := range fn.Blocks {
 			for _, in := range b.Instrs {
 				if st, ok := in.(*ssa.Store); ok {
-					if fa, ok := st.Addr.(*ssa.FieldAddr); ok && fieldNameOf(fa) == "subscribers" && NamedOf(fa.X.Type()) != nil && NamedOf(fa.X.Type()).Obj().Name() == "EventBus" && fn != sub {
+					if fa, ok := st.Addr.(*ssa.FieldAddr); ok && fieldNameOf(fa) == subsField && NamedOf(fa.X.Type()) != nil && NamedOf(fa.X.Type()).Obj().Name() == "EventBus" && fn != sub {
 						c.Violate("bus-fanout", shortFn(fn)+" writes EventBus.subscribers", p.InstrPos(st), "the subscriber list is modified outside Subscribe")
 					}
 				}
@@ -367,7 +373,35 @@ func c06Wiring(c *Ctx) {
 		ok := true
 		var problems []string
 		cur := arg
-		for steps := 0; steps < 12 && cur != nil; steps++ {
+		// the wrappers may be applied in a helper of the server package: descend into it and map its parameters back
+		type frame struct {
+			call *ssa.Call
+			fn   *ssa.Function
+		}
+		var frames []frame
+		subst := func(v ssa.Value) ssa.Value {
+			for i := len(frames) - 1; i >= 0; i-- {
+				pr, isP := v.(*ssa.Parameter)
+				if !isP || pr.Parent() != frames[i].fn {
+					break
+				}
+				idx := paramIdx(pr)
+				if idx < 0 || idx >= len(frames[i].call.Call.Args) {
+					break
+				}
+				v = frames[i].call.Call.Args[idx]
+			}
+			return v
+		}
+		for steps := 0; steps < 16 && cur != nil; steps++ {
+			if pr, isP := cur.(*ssa.Parameter); isP && len(frames) > 0 && pr.Parent() == frames[len(frames)-1].fn {
+				top := frames[len(frames)-1]
+				frames = frames[:len(frames)-1]
+				if idx := paramIdx(pr); idx >= 0 && idx < len(top.call.Call.Args) {
+					cur = top.call.Call.Args[idx]
+					continue
+				}
+			}
 			switch x := cur.(type) {
 			case *ssa.Phi:
 				// a phi of (prev, FilterChannel(prev, ...)): the wrapped edge must be conditional on len(list)!=0
@@ -394,7 +428,7 @@ func c06Wiring(c *Ctx) {
 					break
 				}
 				fld, _ := ConstString(rfc.Call.Args[0])
-				chain = append(chain, layer{"filter", fld, rfc.Call.Args[1], wrapped})
+				chain = append(chain, layer{"filter", fld, subst(rfc.Call.Args[1]), wrapped})
 				// condition of the wrapping
 				good := false
 				for _, dc := range DomConds(wrapped) {
@@ -416,13 +450,18 @@ func c06Wiring(c *Ctx) {
 				switch {
 				case FuncIs(x.Call.StaticCallee(), pushersPath, "TokenChannel"):
 					chain = append(chain, layer{"token", "", x.Call.Args[1], x})
-					base = x.Call.Args[0]
+					base = subst(x.Call.Args[0])
 					cur = nil
 				case FuncIs(x.Call.StaticCallee(), pushersPath, "FilterChannel"):
 					ok = false
 					problems = append(problems, "a filter is applied unconditionally (an absent list must admit everything)")
 					cur = nil
 				default:
+					if f := x.Call.StaticCallee(); f != nil && InRepo(f) && f.Blocks != nil && len(Returns(f)) == 1 && len(RetVals(Returns(f)[0])) == 1 && len(frames) < 3 {
+						frames = append(frames, frame{x, f})
+						cur = RetVals(Returns(f)[0])[0]
+						break
+					}
 					ok = false
 					problems = append(problems, "unexpected wrapper "+RenderN(x, 2))
 					cur = nil
